@@ -789,11 +789,64 @@ def mini_digest(module, seed, tier, indices, extra=None):
     return h.hexdigest()
 
 
+class HistoryViolation(Exception):
+    """The determinism self-test failed because the library's results depend on earlier calls (shown by a history
+    of runs that reproduces in a fresh interpreter): a violation of the property, not a harness fault."""
+
+    def __init__(self, path, sigs, output):
+        Exception.__init__(self, path)
+        self.path = path
+        self.sigs = sigs
+        self.output = output
+
+
+def _explain_nondeterminism(module, seed, tier, indices, extra):
+    """Two in-process executions of the same schedules differed.  If the same schedules, executed as a history in a
+    fresh interpreter (each alone in a pristine child vs. in order in one child), show a dependence on earlier runs,
+    that is the library's doing: HistoryViolation.  Otherwise return (the caller reports a harness error)."""
+    docs = []
+    for index in indices:
+        docs.append(module.generate(random.Random(run_seed(seed, module.PROPERTY, index)), index, tier, extra))
+    doc = {'kind': RUNSEQ, 'docs': docs + docs}
+    os.makedirs(REPLAY_DIR, exist_ok=True)
+    path = os.path.join(REPLAY_DIR, '%s-selftest-%d.json' % (module.PROPERTY, seed))
+    with open(path, 'w') as handle:
+        json.dump({'property': module.PROPERTY, 'batch_seed': seed, 'tier': tier, 'schedule': doc,
+                   'note': 'the schedules of the determinism self-test, twice, as one history of runs'}, handle)
+    env = dict(os.environ)
+    env['PYTHONHASHSEED'] = '4242'
+    proc = subprocess.run([sys.executable, '-B', os.path.join(VERIF_DIR, 'simverif', 'main.py'), module.PROPERTY,
+                           '--replay', path, '--shrink-history'], env=env, stdout=subprocess.PIPE,
+                          stderr=subprocess.STDOUT, timeout=RUN_WALL_LIMIT * 3 + 60, check=False)
+    output = proc.stdout.decode('utf-8', 'replace')
+    sigs = [line.split(': ', 1)[1].split(' [')[0] for line in output.splitlines() if line.startswith('replayed violation: ')]
+    if proc.returncode == EXIT_VIOLATION and sigs:
+        raise HistoryViolation(path, sigs, output)
+    os.remove(path)
+
+
+def shrink_history_file(module, path):
+    """--shrink-history: minimise the history stored in a replay file (in this, fresh, interpreter) and store it back."""
+    with open(path) as handle:
+        data = json.load(handle)
+    doc = data['schedule']
+    res = guarded_execute(module, doc)
+    if res.violations:
+        sig = res.violations[0]['sig']
+        small = shrink_runseq(module, doc, sig, ShrinkBudget(max_evals=60, max_wall=240.0))
+        if has_sig(module, small, sig):
+            data['original_schedule'], data['schedule'] = doc, small
+            data['signature'], data['clause'], data['detail'] = sig, res.violations[0]['clause'], res.violations[0]['detail']
+            with open(path, 'w') as handle:
+                json.dump(data, handle, indent=1, sort_keys=True)
+
+
 def determinism_selftest(module, seed, tier, extra=None, count=24, fresh=True):
     indices = list(range(count))
     first = mini_digest(module, seed, tier, indices, extra)
     second = mini_digest(module, seed, tier, indices, extra)
     if first != second:
+        _explain_nondeterminism(module, seed, tier, indices, extra)
         raise HarnessError('non-determinism: two in-process executions of the same run seeds differ')
     if fresh:
         env = dict(os.environ)
